@@ -290,11 +290,49 @@ Section LiveWorldNft.
   (* ---- composition: transfer, (anything that leaves the sender's cell alone), rejected delivery, refund ---- *)
   Theorem nft_rejected_refund_restores sh m0 i id0 o s1 m w id gas gas' :
     let E := env_at c sh in
+    let s := mk_state (shard_accts w sh) in
     (* the accepted cross-shard transfer, F4b hypothesis as in the conservation theorem *)
     origin_call c sh i -> lookup_consistent E (mk_state m0) (i_caller i) (nft_tkey i) (nft_nonce i) ->
     exec E C.BuiltInFunctionESDTNFTTransfer i (mk_state m0) = (Ok o, s1) ->
     In m (collect c sh C.BuiltInFunctionESDTNFTTransfer i id0 o) ->
-    (* a later world: the message is still in flight; the sender's cell is what the transfer left *)
+    (* a later world: the message is still in flight; the sender's holding of the cell is what the transfer left and
+       its entry (possibly frozen meanwhile) is absent or has a value and the hash of the transferred NFT *)
+    WInv c w -> find_msg (inflight w) id = Some m ->
+    (shof (m_dest m) <? wc_nshards c)%N = true -> (sh <? wc_nshards c)%N = true ->
+    balance E s (i_caller i) (nft_cell i) = balance E s1 (i_caller i) (nft_cell i) ->
+    (forall t0, tok_at E (mk_state m0) (i_caller i) (nft_cell i) = Some t0 -> nft_entry_ok E s (i_caller i) (nft_cell i) t0) ->
+    (forall o' s', exec (env_at c (shof (m_dest m))) (m_fn m) (deliver_input c m (shof (m_dest m)) gas)
+                     (mk_state (shard_accts w (shof (m_dest m)))) <> (Ok o', s')) ->
+    let w2 := wstep c (wstep c w (ODeliver id gas)) (ORefund id gas') in
+    inflight w2 = drop_msg (inflight w) id /\ nat_in id (failed w2) = false
+    /\ wbal c w2 (i_caller i) (nft_cell i) = balance E (mk_state m0) (i_caller i) (nft_cell i)
+    /\ forall k, total c k w2 = total c k w.
+  Proof.
+    intros E s Hor Hlc Hex Hin Hinv Hfind Hshd Hshs Hbal Hcomp Hrej.
+    destruct (emitted_nft_wf sh m0 i id0 o s1 m Hor Hex Hin) as (t0 & Ht0 & Hw). cbv zeta in Hw.
+    destruct Hw as (Hem & _ & _ & _ & Hms & _ & _ & Hk & Hq & _ & _ & _).
+    assert (Hfull : nft_full i t0 = nft_cell i) by (unfold nft_full, nft_cell; rewrite (Hlc t0 Ht0); reflexivity).
+    rewrite Hfull in Hk.
+    pose proof Hor as (Hcal & _).
+    assert (Hent' : nft_entry_ok (env_at c (shof (m_sender m))) (mk_state (shard_accts w (shof (m_sender m)))) (m_sender m)
+                      (nmsg_key m (set_value t0 (Some (nft_qty i)))) (set_value t0 (Some (nft_qty i)))).
+    { rewrite Hms, Hcal, Hk. destruct (Hcomp t0 Ht0) as [Hn|(cur & Hcur & Hv & Hh)]; [left; exact Hn|right].
+      exists cur. split; [exact Hcur|]. split; [exact Hv|]. rewrite t_meta_set_value. exact Hh. }
+    assert (Hshs' : (shof (m_sender m) <? wc_nshards c)%N = true) by (rewrite Hms, Hcal; exact Hshs).
+    destruct (rejected_then_refund_nft w id gas gas' m _ Hinv Hfind Hem Hshd Hshs' Hrej Hent') as (_ & _ & _ & H4 & H5 & Hb & _ & Ht).
+    cbv zeta. split; [exact H4|]. split; [exact H5|]. split; [|exact Ht].
+    rewrite Hms, Hk, Hq in Hb. rewrite Hb, wbal_state, Hcal. fold E. fold s. rewrite Hbal.
+    pose proof Hex as Hex'. rewrite exec_nft_transfer in Hex'.
+    pose proof (origin_nft_caller_is_rcpt sh i _ _ _ Hor Hex') as Heq.
+    destruct (sender_debits_exact_nft E Hc i _ _ _ Hex Heq Hlc) as [_ Hd]. rewrite Hd. lia.
+  Qed.
+
+  (* the case "nothing touched that cell in between": both conditions follow from the sender-side post-state *)
+  Corollary nft_rejected_refund_restores_untouched sh m0 i id0 o s1 m w id gas gas' :
+    let E := env_at c sh in
+    origin_call c sh i -> lookup_consistent E (mk_state m0) (i_caller i) (nft_tkey i) (nft_nonce i) ->
+    exec E C.BuiltInFunctionESDTNFTTransfer i (mk_state m0) = (Ok o, s1) ->
+    In m (collect c sh C.BuiltInFunctionESDTNFTTransfer i id0 o) ->
     WInv c w -> find_msg (inflight w) id = Some m ->
     (shof (m_dest m) <? wc_nshards c)%N = true -> (sh <? wc_nshards c)%N = true ->
     cell (mk_state (shard_accts w sh)) (i_caller i) (nft_cell i) = cell s1 (i_caller i) (nft_cell i) ->
@@ -306,25 +344,17 @@ Section LiveWorldNft.
     /\ forall k, total c k w2 = total c k w.
   Proof.
     intros E Hor Hlc Hex Hin Hinv Hfind Hshd Hshs Hcell Hrej.
-    destruct (emitted_nft_wf sh m0 i id0 o s1 m Hor Hex Hin) as (t0 & Ht0 & Hw). cbv zeta in Hw.
-    destruct Hw as (Hem & _ & _ & _ & Hms & _ & _ & Hk & Hq & _ & _ & Hent).
-    assert (Hfull : nft_full i t0 = nft_cell i) by (unfold nft_full, nft_cell; rewrite (Hlc t0 Ht0); reflexivity).
-    rewrite Hfull in Hk. rewrite Hk in Hent.
-    pose proof Hor as (Hcal & _).
-    assert (Hent' : nft_entry_ok (env_at c (shof (m_sender m))) (mk_state (shard_accts w (shof (m_sender m)))) (m_sender m)
-                      (nmsg_key m (set_value t0 (Some (nft_qty i)))) (set_value t0 (Some (nft_qty i)))).
-    { rewrite Hms, Hcal, Hk. destruct Hent as [Hn|(cur & Hcur & Hrest)]; [left; rewrite Hcell; exact Hn|right].
-      exists cur. split; [|exact Hrest]. unfold tok_at in *. rewrite Hcell. exact Hcur. }
-    assert (Hshs' : (shof (m_sender m) <? wc_nshards c)%N = true) by (rewrite Hms, Hcal; exact Hshs).
-    destruct (rejected_then_refund_nft w id gas gas' m _ Hinv Hfind Hem Hshd Hshs' Hrej Hent') as (_ & _ & _ & H4 & H5 & Hb & _ & Ht).
-    cbv zeta. split; [exact H4|]. split; [exact H5|]. split; [|exact Ht].
-    rewrite Hms, Hk, Hq in Hb. rewrite Hb, wbal_state, Hcal. fold E.
-    assert (Hbal : balance E (mk_state (shard_accts w sh)) (i_caller i) (nft_cell i) = balance E s1 (i_caller i) (nft_cell i))
-      by (unfold balance; rewrite Hcell; reflexivity).
-    rewrite Hbal.
-    pose proof Hex as Hex'. rewrite exec_nft_transfer in Hex'.
-    pose proof (origin_nft_caller_is_rcpt sh i _ _ _ Hor Hex') as Heq.
-    destruct (sender_debits_exact_nft E Hc i _ _ _ Hex Heq Hlc) as [_ Hd]. rewrite Hd. lia.
+    apply (nft_rejected_refund_restores sh m0 i id0 o s1 m w id gas gas' Hor Hlc Hex Hin Hinv Hfind Hshd Hshs); [| |exact Hrej].
+    - unfold balance. rewrite Hcell. reflexivity.
+    - intros t0 Ht0.
+      destruct (emitted_nft_wf sh m0 i id0 o s1 m Hor Hex Hin) as (t0' & Ht0' & Hw). cbv zeta in Hw.
+      assert (t0' = t0) by congruence. subst t0'.
+      destruct Hw as (_ & _ & _ & _ & _ & _ & _ & Hk & _ & _ & _ & Hent).
+      assert (Hfull : nft_full i t0 = nft_cell i) by (unfold nft_full, nft_cell; rewrite (Hlc t0 Ht0); reflexivity).
+      rewrite Hk, Hfull in Hent.
+      destruct Hent as [Hn|(cur & Hcur & Hv & Hh)]; [left; rewrite Hcell; exact Hn|right].
+      exists cur. split; [unfold tok_at in *; rewrite Hcell; exact Hcur|]. split; [exact Hv|].
+      rewrite t_meta_set_value in Hh. exact Hh.
   Qed.
 End LiveWorldNft.
 
@@ -333,3 +363,4 @@ Print Assumptions emitted_nft_wf.
 Print Assumptions deliver_accepted_nft.
 Print Assumptions rejected_then_refund_nft.
 Print Assumptions nft_rejected_refund_restores.
+Print Assumptions nft_rejected_refund_restores_untouched.
